@@ -14,16 +14,24 @@ Definition key3 := (str * str * str)%type.
 Definition P (a b : str) : str * str := (a, b).
 Definition T (a b c : str) : key3 := (a, b, c).
 
+(** the row of GET status: program_start, nagios_pid, program_version *)
+Definition srow := (N * N * str)%type.
+Definition SR (a b : N) (c : str) : srow := (a, b, c).
+
 Record obs := mkObs {
   o_status : pstatus;
   o_err : bool;
   o_tables : list (option (list (str * str)));   (* None = the backend is listed as failed *)
-  o_during : list (option (list key3)) }.        (* answers a concurrent reader got meanwhile:
+  o_during : list (option (list key3));          (* answers a concurrent reader got meanwhile:
                                                     services joined with their host's alias *)
+  o_srow : option srow;                          (* GET status, None = failed *)
+  o_sduring : list (option srow) }.              (* ... as the concurrent reader got it meanwhile *)
 
 Record case := mkCase {
   k_ns : nat; k_nq : nat; k_minute : list nat; k_full : list nat; k_hosts : nat; k_svcs : nat;
-  k_dsets : list dataset; k_events : list event; k_obs : list obs }.
+  k_dsets : list dataset;
+  k_srows : list srow;     (* the status row of the backend process with identity i (index i) *)
+  k_events : list event; k_obs : list obs }.
 
 Definition dset (c : case) (v : N) : dataset := nth (N.to_nat v) (k_dsets c) [].
 
@@ -86,6 +94,19 @@ Definition join_of (c : case) (pub : option N) : option (list key3) :=
       Some (map (fun k => (fst k, snd k, alias_of (fst k) hosts)) (nth (k_svcs c) (dset c v) []))
   end.
 
+Definition srow_eqb (a b : srow) : bool :=
+  N.eqb (fst (fst a)) (fst (fst b)) && N.eqb (snd (fst a)) (snd (fst b)) && str_eqb (snd a) (snd b).
+
+(** the status row served by a peer: the one of the process whose identity it stored with the set *)
+Definition srow_of (c : case) (p : peer) : option srow :=
+  match served_ident p with
+  | None => None
+  | Some i => Some (nth (N.to_nat i) (k_srows c) (0%N, 0%N, []))
+  end.
+
+Definition sduring_ok (c : case) (before after : peer) (seen : list (option srow)) : bool :=
+  forallb (fun a => opt_eqb srow_eqb a (srow_of c before) || opt_eqb srow_eqb a (srow_of c after)) seen.
+
 (** a concurrent reader sees the complete set published before or after the event *)
 Definition during_ok (c : case) (before after : option N) (seen : list (option (list key3))) : bool :=
   forallb (fun a => opt_eqb (perm_eqb key3_eqb) a (join_of c before) ||
@@ -94,7 +115,9 @@ Definition during_ok (c : case) (before after : option N) (seen : list (option (
 Definition obs_ok (c : case) (before : peer) (after : peer) (o : obs) : bool :=
   pstatus_eqb (o_status o) (status after) && Bool.eqb (o_err o) (err after) &&
   list_eqb (opt_eqb (perm_eqb pair_eqb)) (o_tables o) (tables_of c (published after)) &&
-  during_ok c (published before) (published after) (o_during o).
+  during_ok c (published before) (published after) (o_during o) &&
+  opt_eqb srow_eqb (o_srow o) (srow_of c after) &&
+  sduring_ok c before after (o_sduring o).
 
 (** index of the first event whose observation differs (or the length if all agree) *)
 Fixpoint first_bad (c : case) (i : nat) (w : world) (evs : list event) (os : list obs) : option nat :=
